@@ -1,9 +1,78 @@
 package main
 
+import (
+	"fmt"
+	"math/rand"
+	"os"
+	"os/exec"
+	"time"
+
+	"github.com/tigerwill90/fox"
+)
 
 
+
+// selftest demonstrates that the machinery is bound to the code and that the model's properties can fail:
+//   - a TLC vector replayed against a deliberately falsified prescription is reported;
+//   - observations recorded from the real code are accepted, the same observations with one field altered are
+//     rejected, for the function-like trace specifications and for the recorded router history;
+//   - (hook build) the wrong protocol variants are refuted, and stress traces are bound to their hook events.
 func selftest(seed int64) int {
-	outln("selftest: not built yet")
+	if !hooksCompiled {
+		if bin := os.Getenv("FOXCHECK_VERIF_BIN"); bin != "" {
+			cmd := exec.Command(bin, "--selftest")
+			cmd.Stdout, cmd.Stderr = out, out
+			if err := cmd.Run(); err != nil {
+				return exitTool
+			}
+			return exitOK
+		}
+	}
+	r := newRun("selftest", "quick", seed)
+	defer r.cleanup()
+	r.capture = true
+	failed := 0
+	report := func(name string, ok bool, detail string) {
+		mark := "ok  "
+		if !ok {
+			mark = "FAIL"
+			failed++
+		}
+		outf("%s %s %s\n", mark, name, detail)
+	}
+	func() {
+		defer func() {
+			if p := recover(); p != nil {
+				report("self-test aborted", false, fmt.Sprint(p))
+			}
+		}()
+		// D1: a falsified prescription must be reported by the matcher replay
+		g := &matchGen{Pool: []string{"/a/{x}", "/a/b/"}, Paths: []string{"/a/b", "/a/c"}, Hosts: []string{"a.b"}, MaxTab: 2}
+		m := &matchReplayer{r: r, g: g, aspect: "all", method: "GET"}
+		good := matchVec{T: []int{1, 2}, Pr: [][]any{{1.0, 1.0, 1.0, 0.0, []any{[]any{"x", "b"}}}, {1.0, 2.0, 1.0, 0.0, []any{[]any{"x", "c"}}}}}
+		before := len(r.captured)
+		m.replay(good, rand.New(rand.NewSource(1)))
+		report("a correct matcher vector replays without disagreement", len(r.captured) == before, "")
+		bad := matchVec{T: []int{1, 2}, Pr: [][]any{{1.0, 1.0, 2.0, 1.0, []any{}}}}
+		m.replay(bad, rand.New(rand.NewSource(1)))
+		report("a falsified prescription is reported by the replay", len(r.captured) > before, "")
+		// D2: Obs_Clean accepts real observations and rejects an altered one
+		obs := []map[string]any{}
+		for _, in := range []string{"/a/../b/", "a//b/.", "/x/./y"} {
+			obs = append(obs, map[string]any{"in": chars(in), "out": chars(fox.CleanPath(in))})
+		}
+		rej := r.runObs("Obs_Clean", obs, 2*time.Minute)
+		report("Obs_Clean accepts what the real CleanPath returned", len(rej) == 0, "")
+		obs[1]["out"] = chars("/a/b/x")
+		rej = r.runObs("Obs_Clean", obs, 2*time.Minute)
+		report("Obs_Clean rejects an altered observation", len(rej) == 1, fmt.Sprint(rej))
+		selftestHooks(r, report)
+	}()
+	if failed > 0 {
+		outf("selftest: %d failures\n", failed)
+		return exitTool
+	}
+	outln("selftest ok")
 	return exitOK
 }
 
